@@ -403,7 +403,7 @@ def run_shard(spec, ctx):
             return
         if bytes(area[-1:]) != b'\x00':
             ctx.feature('edge_area_used_to_its_last_byte')
-        regions, _ = carts.random_regions(rng, 'zero')
+        regions, _ = carts.random_regions(rng, ('zero', 'uniform', 'sparse', 'uniform')[ctx.evaluations % 4])   # (the other sections of the cart are not the code's business)
         try:
             g = P8PNGFormatter.from_file(io.BytesIO(rc.write_p8png(regions, bytes(area), 8)))
             back = b''.join(g.lua.to_lines())
@@ -538,7 +538,7 @@ def run_shard(spec, ctx):
                 t = t.rstrip(b'\n')
             if not in_domain(t):
                 continue
-            regions, _ = carts.random_regions(rng, 'zero')
+            regions, _ = carts.random_regions(rng, ('zero', 'uniform', 'sparse', 'uniform')[ctx.evaluations % 4])   # (the other sections of the cart are not the code's business)
             case = {'kind': 'producer', 'text': t, 'tag': 'via_writer'}
             ctx.case(t + b'#writer' + (b'#resave' if spec.get('resave') else b''))
             try:
